@@ -67,15 +67,19 @@ def run(prop_id, tier, replay=None):
         forb = C.grep_forbidden()
         if forb:
             out.broken.append({"kind": "forbidden-construct", "name": ",".join(forb[:5]), "detail": "sorry/axiom/native_decide found"})
-        thms, axioms = [], {}
-        if ok:
-            for mod in P["lean"]:
-                names = C.theorems_of(mod)
-                thms += [(mod, n) for n in names]
-                axioms.update(C.audit_axioms(mod, names))
-            bad = {n: a for n, a in axioms.items() if not set(a) <= C.STD_AXIOMS}
-            if bad:
-                out.broken.append({"kind": "axiom-audit", "name": ",".join(bad), "detail": json.dumps(bad)})
+        thms, axioms, discharged = [], {}, 0
+        # when some module no longer builds, the theorems of the modules that still do are still checked and audited
+        mods_ok = list(P["lean"]) if ok else [m for m in P["lean"] if C.lake_build([m])[0]]
+        for mod in P["lean"]:
+            names = C.theorems_of(mod)
+            thms += [(mod, n) for n in names]
+            if mod in mods_ok:
+                ax = C.audit_axioms(mod, names)
+                axioms.update(ax)
+                discharged += sum(1 for n in names if set(ax.get(n.split(".")[-1], ["?"])) <= C.STD_AXIOMS)
+        bad = {n: a for n, a in axioms.items() if not set(a) <= C.STD_AXIOMS}
+        if bad:
+            out.broken.append({"kind": "axiom-audit", "name": ",".join(bad), "detail": json.dumps(bad)})
         if tier == "thorough" and ok:
             import subprocess
             p = subprocess.run(["lake", "env", "leanchecker"] + list(P["lean"]), cwd=C.LEAN,
@@ -166,8 +170,9 @@ def run(prop_id, tier, replay=None):
         samples += [{"stream": r.name, "case": s} for s in r.samples[:3]]
     n_obl = len(thms)
     cov.update({
-        "obligations": n_obl if ok else max(1, len(build_errs)),
-        "discharged": n_obl if ok and not [b for b in out.broken if b["kind"] in ("proof-obligation", "axiom-audit", "forbidden-construct", "leanchecker")] else 0,
+        "obligations": max(1, n_obl),
+        "discharged": 0 if [b for b in out.broken if b["kind"] in ("forbidden-construct", "leanchecker")] else discharged,
+        "modules_not_building": [m for m in P["lean"] if m not in mods_ok],
         "theorems": ["%s.%s" % (m, n) for m, n in thms],
         "axioms": sorted({a for v in axioms.values() for a in v}),
         "checker_cmd": "cd /verif/lean && lake build %s && lake env lean <#print axioms of every theorem>%s"
